@@ -9,8 +9,12 @@
   this file: the payload is an arbitrary `List RAct` (fund the router from the borrower contract, send
   out, pay the vault, collect, deposit, fail, run the borrower contract's whole alphabet, call
   CompleteLoan early, take another router loan with its own payload …).
+  The third part (theorems `chain_…`) is the router in front of SEVERAL vaults (model:
+  WW/Model/VaultChain.lean): the chain of `NextLoan`s over any number of vaults, the payload being ANY
+  state transformer `run : St → Option St` (so every payload outcome is covered, not only an alphabet).
 -/
 import WW.Proofs.Vault
+import WW.Proofs.VaultChain
 namespace WW.C06
 open WW WW.Vault
 
@@ -371,6 +375,150 @@ theorem router_multi_refused_none_noop (s : St) (who a1 a2 : Nat) (payload : Lis
     step s (.routerLoanMulti who a1 a2 payload) = none ∧ step s (.routerLoanNone who payload) = some s :=
   ⟨rfl, rfl⟩
 
+/-! ### the vault router over several vaults: the chain of `NextLoan`s
+
+  `VaultChain.chainGo c run I L s L` is the router borrowing from every vault of `L` (pairs
+  (vault, amount), in `to_loan` order), running the payload `run`, `CompleteLoan{I, L}` and every vault's
+  `after_trade`. `s1` = the state in which the payload starts (`VaultChain.lends`, a function of `s` and
+  `L`), `s2` = the state it leaves. Account 5 is the router, `6 + j` vault `j`, `I < 5` an ordinary
+  account. On the real code the router's own `FlashLoan` starts it for one vault (`chain_rloan_single`),
+  a hand-built `NextLoan` message in a payload for several (`chain_in_payload`). -/
+
+/-- (a) All or nothing, chained router transactions: a failed one leaves every balance and ledger of
+    every vault untouched … -/
+theorem chain_failed_changes_nothing (c : VaultChain.Cfg) (s : VaultChain.St) (op : VaultChain.Op)
+    (h : VaultChain.step c s op = none) : VaultChain.apply c s op = s := by
+  simp [VaultChain.apply, h]
+
+/-- … and a successful one is exactly the model's successor state (no third outcome). -/
+theorem chain_all_or_nothing (c : VaultChain.Cfg) (s : VaultChain.St) (op : VaultChain.Op) :
+    VaultChain.apply c s op = s ∨ ∃ s', VaultChain.step c s op = some s' ∧ VaultChain.apply c s op = s' := by
+  cases h : VaultChain.step c s op with
+  | none => left; simp [VaultChain.apply, h]
+  | some s' => right; exact ⟨s', rfl, by simp [VaultChain.apply, h]⟩
+
+/-- A chain that succeeds borrowed from pairwise different, factory-registered vaults (an asset listed
+    twice, or one without a vault, makes everything fail). -/
+theorem chain_vaults_distinct_known {c : VaultChain.Cfg} {run : VaultChain.St → Option VaultChain.St}
+    {I : Nat} {L : List (Nat × Nat)} {s s' : VaultChain.St} (hI : I < 5)
+    (h : VaultChain.chainGo c run I L s L = some s') :
+    (L.map (·.1)).Nodup ∧ ∀ e ∈ L, e.1 < c.nv := by
+  obtain ⟨_, _, _, _, S⟩ := VaultChain.chain_spec hI h
+  exact ⟨S.nodup, S.known⟩
+
+/-- When the payload starts the router holds, of every borrowed asset, what it held before plus the
+    loan; each vault is short of exactly its loan; nothing else has moved. -/
+theorem chain_payload_starts_with_loans {c : VaultChain.Cfg} {run : VaultChain.St → Option VaultChain.St}
+    {I : Nat} {L : List (Nat × Nat)} {s s' : VaultChain.St} (hI : I < 5)
+    (h : VaultChain.chainGo c run I L s L = some s') :
+    ∃ s1 s2, VaultChain.lends c s L = some s1 ∧ run s1 = some s2 ∧
+      (∀ e ∈ L, s1.bal e.1 5 = s.bal e.1 5 + e.2 ∧ s1.bal e.1 (6 + e.1) + e.2 = s.bal e.1 (6 + e.1) ∧
+        ∀ y, y ≠ 5 → y ≠ 6 + e.1 → s1.bal e.1 y = s.bal e.1 y) ∧
+      (∀ x, x ∉ L.map (·.1) → ∀ y, s1.bal x y = s.bal x y) := by
+  obtain ⟨s1, s2, h1, h2, S⟩ := VaultChain.chain_spec hI h
+  exact ⟨s1, s2, h1, h2, fun e he => ⟨S.lentRouter e he, S.lentVault e he, S.lentOtherAcct e he⟩, S.lentOtherAsset⟩
+
+/-- (b) **Every vault of the chain receives exactly its quoted payback** — the loan plus its three
+    fees, each `⌊share · loan⌋` under that vault's own fee triple: the router held at least that much
+    of the asset when the payload finished, the vault's balance ends at its balance at that moment
+    plus the quote minus the burn fee (which `after_trade` destroys), and its fee ledgers record exactly
+    the protocol and the burn fee. For EVERY number of vaults, every payload, all amounts. -/
+theorem chain_pays_each_quote {c : VaultChain.Cfg} {run : VaultChain.St → Option VaultChain.St}
+    {I : Nat} {L : List (Nat × Nat)} {s s' : VaultChain.St} (hI : I < 5)
+    (h : VaultChain.chainGo c run I L s L = some s') :
+    ∃ s1 s2, VaultChain.lends c s L = some s1 ∧ run s1 = some s2 ∧
+      ∀ e ∈ L,
+        VaultChain.payback c e.1 e.2 = e.2 + e.2 * (c.fees e.1).prot / E18 + e.2 * (c.fees e.1).flash / E18
+          + e.2 * (c.fees e.1).burn / E18 ∧
+        VaultChain.payback c e.1 e.2 ≤ s2.bal e.1 5 ∧
+        s'.bal e.1 (6 + e.1) + e.2 * (c.fees e.1).burn / E18 = s2.bal e.1 (6 + e.1) + VaultChain.payback c e.1 e.2 ∧
+        s'.allTime e.1 = s2.allTime e.1 + e.2 * (c.fees e.1).prot / E18 ∧
+        s'.pend e.1 = s2.pend e.1 + e.2 * (c.fees e.1).prot / E18 ∧
+        s'.burned e.1 = s2.burned e.1 + e.2 * (c.fees e.1).burn / E18 := by
+  obtain ⟨s1, s2, h1, h2, S⟩ := VaultChain.chain_spec hI h
+  exact ⟨s1, s2, h1, h2, fun e he => ⟨rfl, S.covered e he, S.vault e he, S.allTime e he, S.pend e he, S.burned e he⟩⟩
+
+/-- Whatever the payload did (payments to the vaults, transfers, further loans elsewhere), every vault of
+    the chain ends with at least its balance before the transaction plus its protocol and flash-loan fee. -/
+theorem chain_vault_balance_ge {c : VaultChain.Cfg} {run : VaultChain.St → Option VaultChain.St}
+    {I : Nat} {L : List (Nat × Nat)} {s s' : VaultChain.St} (hI : I < 5)
+    (h : VaultChain.chainGo c run I L s L = some s') :
+    ∀ e ∈ L, s.bal e.1 (6 + e.1) + e.2 * (c.fees e.1).prot / E18 + e.2 * (c.fees e.1).flash / E18
+      ≤ s'.bal e.1 (6 + e.1) := by
+  obtain ⟨_, _, _, _, S⟩ := VaultChain.chain_spec hI h
+  exact S.balGe
+
+/-- (c) **The router keeps nothing**: of every borrowed asset its balance is zero afterwards — stray
+    funds it held before and whatever the payload brought in included — and its balance of every other
+    asset is exactly what the payload left there (CompleteLoan and the after_trades do not touch it).
+    In particular a router that holds nothing before a transaction whose payload leaves it nothing of
+    the other assets holds nothing afterwards: its balances are unchanged. -/
+theorem chain_router_keeps_nothing {c : VaultChain.Cfg} {run : VaultChain.St → Option VaultChain.St}
+    {I : Nat} {L : List (Nat × Nat)} {s s' : VaultChain.St} (hI : I < 5)
+    (h : VaultChain.chainGo c run I L s L = some s') :
+    ∃ s1 s2, VaultChain.lends c s L = some s1 ∧ run s1 = some s2 ∧
+      (∀ e ∈ L, s'.bal e.1 5 = 0) ∧ (∀ x, x ∉ L.map (·.1) → s'.bal x 5 = s2.bal x 5) := by
+  obtain ⟨s1, s2, h1, h2, S⟩ := VaultChain.chain_spec hI h
+  exact ⟨s1, s2, h1, h2, S.router, fun x hx => S.otherAsset x hx 5⟩
+
+/-- (d) **Everything the payload left over goes to the initiator, nobody else**: of every borrowed asset
+    the initiator `I` — the account named when the chain was started, forwarded unchanged through every
+    `NextLoan` — receives exactly `router balance − quote`; no other account (users, the funding contract,
+    the fee collector, the OTHER vaults) changes its balance of a borrowed asset between the end of the
+    payload and the end of the transaction, and no balance of any other asset moves at all. -/
+theorem chain_rest_to_initiator {c : VaultChain.Cfg} {run : VaultChain.St → Option VaultChain.St}
+    {I : Nat} {L : List (Nat × Nat)} {s s' : VaultChain.St} (hI : I < 5)
+    (h : VaultChain.chainGo c run I L s L = some s') :
+    ∃ s1 s2, VaultChain.lends c s L = some s1 ∧ run s1 = some s2 ∧
+      (∀ e ∈ L, s'.bal e.1 I = s2.bal e.1 I + (s2.bal e.1 5 - VaultChain.payback c e.1 e.2)) ∧
+      (∀ e ∈ L, ∀ y, y ≠ 5 → y ≠ I → y ≠ 6 + e.1 → s'.bal e.1 y = s2.bal e.1 y) ∧
+      (∀ x, x ∉ L.map (·.1) → ∀ y, s'.bal x y = s2.bal x y) := by
+  obtain ⟨s1, s2, h1, h2, S⟩ := VaultChain.chain_spec hI h
+  exact ⟨s1, s2, h1, h2, S.initiator, S.otherAcct, S.otherAsset⟩
+
+/-- (e) **If the payload leaves less than some vault's payback the whole transaction fails**: a payload
+    that — in whatever state it is started — ends with the router holding less of some borrowed asset
+    than that vault's quote makes the chain fail (so nothing changes), for any number of vaults. -/
+theorem chain_short_reverts {c : VaultChain.Cfg} {run : VaultChain.St → Option VaultChain.St}
+    {I : Nat} {L : List (Nat × Nat)} (s : VaultChain.St)
+    (hshort : ∀ s1 s2, run s1 = some s2 → ∃ e ∈ L, s2.bal e.1 5 < VaultChain.payback c e.1 e.2) :
+    VaultChain.chainGo c run I L s L = none :=
+  VaultChain.chainGo_short hshort L s
+
+/-- The router's own `FlashLoan{[asset], msgs}` by account `who` is the chain over that one vault with
+    `who` as initiator, … -/
+theorem chain_rloan_single (c : VaultChain.Cfg) (s : VaultChain.St) (who : Nat) (e : Nat × Nat)
+    (p : List VaultChain.RAct) (hw : who < 4) :
+    VaultChain.step c s (.rloan who [e] p) = VaultChain.chainGo c (fun t => VaultChain.rruns c t p) who [e] s [e] := by
+  simp only [VaultChain.step]
+  rw [if_neg (by omega)]
+
+/-- … more than one asset is refused (`NestedFlashLoansDisabled`), zero assets do nothing (the payload
+    is not run), … -/
+theorem chain_multi_refused_none_noop (c : VaultChain.Cfg) (s : VaultChain.St) (who : Nat) (e1 e2 : Nat × Nat)
+    (es : List (Nat × Nat)) (p : List VaultChain.RAct) (hw : who < 4) :
+    VaultChain.step c s (.rloan who (e1 :: e2 :: es) p) = none ∧ VaultChain.step c s (.rloan who [] p) = some s := by
+  simp only [VaultChain.step]
+  rw [if_neg (by omega), if_neg (by omega)]
+  exact ⟨rfl, rfl⟩
+
+/-- … and the chain over several vaults is what the hand-built `NextLoan` message in a payload starts
+    (the router is the borrower): all `chain_…` theorems apply to it with `run` = the inner payload. -/
+theorem chain_in_payload (c : VaultChain.Cfg) (s : VaultChain.St) (I : Nat) (e : Nat × Nat) (es : List (Nat × Nat))
+    (p : List VaultChain.RAct) (hI : I < 6 + c.nv) :
+    VaultChain.rrun c s (.chain I (e :: es) p)
+      = VaultChain.chainGo c (fun t => VaultChain.rruns c t p) I (e :: es) s (e :: es) := by
+  rw [VaultChain.rrun]
+  rw [if_neg (by omega)]
+
+/-- Sender guards: `NextLoan` (also in its chained shape) and `CompleteLoan` sent by an ordinary account
+    are refused and nothing changes. -/
+theorem chain_callbacks_guarded (c : VaultChain.Cfg) (s : VaultChain.St) (who I : Nat) (L : List (Nat × Nat))
+    (p : List VaultChain.RAct) :
+    VaultChain.step c s (.xnext who I L p) = none ∧ VaultChain.step c s (.xcomplete who I L) = none ∧
+    VaultChain.apply c s (.xnext who I L p) = s ∧ VaultChain.apply c s (.xcomplete who I L) = s :=
+  ⟨rfl, rfl, rfl, rfl⟩
+
 /-- non-vacuity + the exact numbers: loan 500 000 at fees 1 % / 0.3 % / 0.1 %: payback 507 000;
     repaying 507 000 succeeds, 506 999 reverts, a nested loan reverts, a deposit reverts. -/
 example :
@@ -403,5 +551,38 @@ example :
       ∧ routerLoanFrom s 1 500000 [.fund 7000, .complete 0 100] = none
       ∧ step s (.nextLoanBy 1 0 [.out 1 300]) = none := by
   decide
+
+/-- non-vacuity + the exact numbers, three vaults (0: native, fees 1 % / 0.3 % / 0.1 %; 1: cw20, no fees;
+    2: native, 2 % protocol fee), 1 000 000 in each, the router holding 7 stray units of asset 1.
+    User 1 borrows 1 000 from vault 0 through the router's FlashLoan and, in the payload, 500 from
+    vault 1 and 300 from vault 2 through the NextLoan chain (paybacks 1 014, 500, 306): funding 7 of
+    asset 2 and 14 of asset 0 succeeds — vault balances 1 000 013 (1 burned), 1 000 000, 1 000 006, the
+    router ends with nothing of any asset, user 1 receives the 7 stray units of asset 1 and 1 unit of
+    asset 2, no vault holds a foreign asset. One unit less for vault 2 (fund 5) reverts everything;
+    so do the same vault twice, an asset without a vault, a loan above a vault's balance, a failing
+    payload, two assets sent to FlashLoan directly. -/
+example :
+    let c : VaultChain.Cfg := ⟨3, fun j => if j = 1 then 1 else 0,
+      fun j => if j = 0 then ⟨10000000000000000, 3000000000000000, 1000000000000000⟩
+        else if j = 1 then ⟨0, 0, 0⟩ else ⟨20000000000000000, 0, 0⟩⟩
+    let z : Nat → Nat := fun _ => 0
+    let s : VaultChain.St := ⟨z, z, z, z,
+      fun j a => if a = 3 then 100000 else if a = 6 + j then 1000000 else if a = 5 ∧ j = 1 then 7 else 0⟩
+    let a := VaultChain.apply c s (.rloan 1 [(0, 1000)] [.chain 1 [(1, 500), (2, 300)] [.fund 2 7], .fund 0 14])
+    (VaultChain.payback c 0 1000, VaultChain.payback c 1 500, VaultChain.payback c 2 300) = (1014, 500, 306)
+      ∧ (a.bal 0 6, a.bal 1 7, a.bal 2 8) = (1000013, 1000000, 1000006)
+      ∧ (a.bal 0 5, a.bal 1 5, a.bal 2 5) = (0, 0, 0)
+      ∧ (a.bal 0 1, a.bal 1 1, a.bal 2 1) = (0, 7, 1)
+      ∧ (a.bal 1 6, a.bal 2 6, a.bal 0 7, a.bal 2 7, a.bal 0 8, a.bal 1 8) = (0, 0, 0, 0, 0, 0)
+      ∧ (a.pend 0, a.burned 0, a.pend 2, a.ctr 0, a.ctr 1, a.ctr 2) = (10, 1, 6, 0, 0, 0)
+      ∧ (VaultChain.step c s (.rloan 1 [(0, 1000)] [.chain 1 [(1, 500), (2, 300)] [.fund 2 5], .fund 0 14])).isNone = true
+      ∧ (VaultChain.step c s (.rloan 1 [(0, 1000)] [.chain 1 [(1, 500), (1, 300)] [], .fund 0 14])).isNone = true
+      ∧ (VaultChain.step c s (.rloan 1 [(0, 1000)] [.chain 1 [(1, 500), (0, 300)] [], .fund 0 14])).isNone = true
+      ∧ (VaultChain.step c s (.rloan 1 [(0, 1000)] [.chain 1 [(1, 500), (3, 300)] [], .fund 0 14])).isNone = true
+      ∧ (VaultChain.step c s (.rloan 1 [(0, 1000)] [.chain 1 [(1, 500), (2, 1000001)] [.fund 2 30000], .fund 0 14])).isNone = true
+      ∧ (VaultChain.step c s (.rloan 1 [(0, 1000)] [.chain 1 [(1, 500), (2, 300)] [.fund 2 7, .fail], .fund 0 14])).isNone = true
+      ∧ (VaultChain.step c s (.rloan 1 [(0, 1000), (1, 500)] [.fund 0 14])).isNone = true := by
+  -- (the states hold balances as functions: evaluated by the kernel directly, without the elaborator's pass)
+  decide +kernel
 
 end WW.C06
